@@ -198,6 +198,9 @@ func (res Response) MarshalSize() int {
 	n += len(rtspProtocol10) + 1 + len(strconv.FormatInt(int64(res.StatusCode), 10)) + 1 + len(res.StatusMessage) + 2
 
 	if len(res.Body) != 0 {
+		if res.Header == nil {
+			res.Header = make(Header)
+		}
 		res.Header["Content-Length"] = HeaderValue{strconv.FormatInt(int64(len(res.Body)), 10)}
 	}
 
@@ -231,6 +234,9 @@ func (res Response) MarshalTo(buf []byte) (int, error) {
 	pos++
 
 	if len(res.Body) != 0 {
+		if res.Header == nil {
+			res.Header = make(Header)
+		}
 		res.Header["Content-Length"] = HeaderValue{strconv.FormatInt(int64(len(res.Body)), 10)}
 	}
 
